@@ -43,6 +43,7 @@ func (e *Engine) structuralChecks(prop string) []*StructObl {
 		}
 	}
 	out = append(out, e.coverChecks(prop)...)
+	out = append(out, e.journalChecks(prop)...)
 	return out
 }
 
@@ -393,4 +394,173 @@ func (e *Engine) factGlobalKeys() map[string]bool {
 		e.factKeys[globalKey(g)] = true
 	}
 	return e.factKeys
+}
+
+// ---------------------------------------------------------------------------
+// journal pairs (C12, J1/J2 as frame obligations): a mutator appends an entry of the given
+// type before its first write to journalled state, and every journalled field the mutator
+// writes is written back by that entry's revert.
+
+func isJournalledMem(n string) bool {
+	if strings.HasPrefix(n, "H|core/state.stateObject|") {
+		// caches and bookkeeping that are not part of an account's value
+		for _, skip := range []string{".trie", ".dbErr", ".db", ".address", ".addrHash"} {
+			if strings.HasPrefix(n, "H|core/state.stateObject|"+skip) {
+				return false
+			}
+		}
+		return true
+	}
+	for _, f := range []string{".refund", ".logSize", ".size"} {
+		if n == "H|core/state.StateDB|"+f {
+			return true
+		}
+	}
+	return false
+}
+
+// trackedWrites: journalled memory arrays stored to by fn, following static calls (depth<=3)
+// except into the journal itself and the object lookup/creation helpers.
+func (e *Engine) trackedWrites(fn *ssa.Function, depth int, seen map[*ssa.Function]bool, out map[string]string) {
+	if fn == nil || seen[fn] || depth > 3 || len(fn.Blocks) == 0 {
+		return
+	}
+	seen[fn] = true
+	for _, b := range fn.Blocks {
+		for _, in := range b.Instrs {
+			switch x := in.(type) {
+			case *ssa.Store:
+				if rootOf(x.Addr, 0) == -2 {
+					continue
+				}
+				names, _ := staticMems(x.Addr)
+				for _, n := range names {
+					if isJournalledMem(n) {
+						// group leaves of one field together: strip slice/interface leaf suffixes
+						f := n
+						for _, suf := range []string{".b", ".o", ".l", ".c", ".t", ".v"} {
+							f = strings.TrimSuffix(f, suf)
+						}
+						if _, ok := out[f]; !ok {
+							out[f] = fn.Name() + " at " + e.posString(x.Pos())
+						}
+					}
+				}
+			case ssa.CallInstruction:
+				if callee, ok := x.Common().Value.(*ssa.Function); ok {
+					switch callee.Name() {
+					case "append", "getStateObject", "getDeletedStateObject", "GetOrNewStateObject", "createObject", "setError", "dirty":
+						continue
+					}
+					if callee.Pkg == fn.Pkg {
+						e.trackedWrites(callee, depth+1, seen, out)
+					}
+				}
+			}
+		}
+	}
+}
+
+func (e *Engine) journalChecks(prop string) []*StructObl {
+	var out []*StructObl
+	for _, sf := range e.specFiles {
+		sp := e.spkgs[sf.Pkg]
+		for _, jp := range sf.Journal {
+			if !hasProp(jp.Props, prop) {
+				continue
+			}
+			grp := fmt.Sprintf("journal/%s/%s", jp.Mutator, jp.Entry)
+			mut, err1 := e.resolveFunc(sf.Pkg, jp.Mutator)
+			rev, err2 := e.resolveFunc(sf.Pkg, "("+jp.Entry+").revert")
+			var entryT types.Type
+			if sp != nil {
+				if tn, ok := sp.Pkg.Scope().Lookup(jp.Entry).(*types.TypeName); ok {
+					entryT = tn.Type()
+				}
+			}
+			if err1 != nil || err2 != nil || entryT == nil {
+				out = append(out, &StructObl{Name: grp, Group: grp, Clause: "journal pair resolves", OK: false, Detail: fmt.Sprintf("%v %v", err1, err2)})
+				continue
+			}
+			// (a) an entry of the type is appended, and that append dominates every tracked store in the mutator body
+			var appendSite ssa.Instruction
+			for _, b := range mut.Blocks {
+				for _, in := range b.Instrs {
+					ci, ok := in.(ssa.CallInstruction)
+					if !ok {
+						continue
+					}
+					callee, ok := ci.Common().Value.(*ssa.Function)
+					if !ok || callee.Name() != "append" || len(ci.Common().Args) < 2 {
+						continue
+					}
+					if mi, ok := ci.Common().Args[1].(*ssa.MakeInterface); ok && types.Identical(mi.X.Type(), entryT) {
+						appendSite = in
+					}
+				}
+			}
+			oa := &StructObl{Name: grp + "/appends", Group: grp, Clause: fmt.Sprintf("%s appends a %s to the journal before writing journalled state", jp.Mutator, jp.Entry), OK: appendSite != nil}
+			if appendSite == nil {
+				oa.Detail = "no journal.append(" + jp.Entry + "{...}) in the mutator"
+			} else {
+				oa.Detail = "append at " + e.posString(appendSite.Pos())
+				ai := instrIndex(appendSite)
+				for _, b := range mut.Blocks {
+					for i, in := range b.Instrs {
+						var touches bool
+						switch x := in.(type) {
+						case *ssa.Store:
+							if rootOf(x.Addr, 0) != -2 {
+								names, _ := staticMems(x.Addr)
+								for _, n := range names {
+									if isJournalledMem(n) {
+										touches = true
+									}
+								}
+							}
+						case ssa.CallInstruction:
+							if callee, ok := x.Common().Value.(*ssa.Function); ok && callee.Pkg == mut.Pkg && callee.Name() != "append" {
+								w := map[string]string{}
+								e.trackedWrites(callee, 1, map[*ssa.Function]bool{}, w)
+								// only setters count: getters such as Code()/GetState() fill caches, which is not a state mutation
+								n := callee.Name()
+								touches = len(w) > 0 && (strings.HasPrefix(n, "set") || strings.HasPrefix(n, "Set") || strings.HasPrefix(n, "mark"))
+							}
+						}
+						if !touches {
+							continue
+						}
+						dominated := (b == appendSite.Block() && i > ai) || (b != appendSite.Block() && appendSite.Block().Dominates(b))
+						if !dominated {
+							oa.OK = false
+							oa.Detail = fmt.Sprintf("write to journalled state at %s is not preceded by the journal append", e.posString(in.Pos()))
+						}
+					}
+				}
+			}
+			out = append(out, oa)
+			// (b) frame inclusion
+			mw := map[string]string{}
+			e.trackedWrites(mut, 0, map[*ssa.Function]bool{}, mw)
+			rw := map[string]string{}
+			e.trackedWrites(rev, 0, map[*ssa.Function]bool{}, rw)
+			var fields []string
+			for f := range mw {
+				fields = append(fields, f)
+			}
+			sort.Strings(fields)
+			for _, f := range fields {
+				short := strings.TrimPrefix(strings.TrimPrefix(f, "H|core/state."), "stateObject|")
+				o := &StructObl{Name: grp + "/restores[" + short + "]", Group: grp, Clause: fmt.Sprintf("field %s written by %s is written back by %s.revert", short, jp.Mutator, jp.Entry)}
+				if _, ok := rw[f]; ok {
+					o.OK = true
+					o.Detail = "written in " + mw[f] + "; restored in " + rw[f]
+				} else {
+					o.Detail = "written in " + mw[f] + " but never written by " + jp.Entry + ".revert"
+				}
+				out = append(out, o)
+			}
+		}
+	}
+	return out
 }
